@@ -175,10 +175,12 @@ fn main() -> Result<(), Box<dyn Error>> {
 
       let cddl_str = fs::read_to_string(&validate.cddl)?;
 
-      info!(
-        "Root type for validation: {}",
-        root_type_name_from_cddl_str(&cddl_str)?
-      );
+      // a schema without a (non-generic) type rule has no root type to report; the
+      // library still validates against it, so this is not a reason to stop
+      match root_type_name_from_cddl_str(&cddl_str) {
+        Ok(root) => info!("Root type for validation: {}", root),
+        Err(e) => warn!("{}", e),
+      }
 
       if let Some(files) = &validate.json {
         for file in files {
